@@ -179,7 +179,8 @@ class Composition:
 
     # -- member states honouring the preconditions
     def member_state(self, rng, category=None):
-        box_types = [t for t in self.types if t is not self.unique_type]
+        # nothing of the unique type - nor of a class derived from it - may hide in a box (opening it would add a second one)
+        box_types = [t for t in self.types if self.unique_type is None or not issubclass(t, self.unique_type)]
         types = self.types
         state, cat = gen.rand_state(rng, types, self.colors, shape=self.shape, category=category)
         g = state.grid
